@@ -809,6 +809,11 @@ def realtime_case(rng, extended=False):
     if extended:
         for _ in range(20):
             seqs.append([(rng.choice(kinds), rng.random() < 0.5, rng.choice(["duckdb", "sqlite"]) if mixed else world["engine"]) for _ in range(rng.randint(2, 4))])
+        # short-lived settings objects: every call builds its own SettingsCreator (model A or B) and releases it afterwards, so that
+        # a later object can be allocated at the address of an earlier, dead one (the cache keys SettingsCreator objects by identity
+        # and must notice that the object it remembers is gone)
+        flag = rng.random() < 0.5
+        seqs.insert(0, [(rng.choice(["ephemA", "ephemB"]), flag, world["engine"]) for _ in range(6)])
     else:
         for n in (1, 2, 3):
             for combo in itertools.product(range(len(kinds) * 2), repeat=n):
@@ -864,6 +869,33 @@ def run_realtime(case):
             engine = call[2] if len(call) > 2 else world["engine"]
             if engine not in apis:
                 apis[engine] = impl.make_api(engine, threads=1)
+            if kind.startswith("ephem"):
+                import gc
+
+                sd, other = (sdA, sdB) if kind.endswith("A") else (sdB, sdA)
+                # a dozen short-lived objects of the OTHER model are scored and released; then objects of this model are created (and kept) until
+                # one lands on the address of a dead one (CPython reuses freed blocks: measured, about the 12th candidate), and that one is scored
+                firsts = [SettingsCreator(**json.loads(json.dumps(other))) for _ in range(30)]
+                for f_ in firsts:
+                    realtime.compare_records(case["r1"], case["r2"], f_, apis[engine], use_sql_from_cache=True, include_found_by_blocking_rules=flag)
+                dead = {id(f_) for f_ in firsts}
+                del firsts, f_
+                gc.collect()
+                obj, keep = None, []
+                for _ in range(3000):
+                    cand = SettingsCreator(**json.loads(json.dumps(sd)))
+                    if id(cand) in dead:
+                        obj = cand
+                        break
+                    keep.append(cand)
+                reused = obj is not None
+                obj = obj if reused else keep[-1]
+                with_cache = realtime.compare_records(case["r1"], case["r2"], obj, apis[engine], use_sql_from_cache=True, include_found_by_blocking_rules=flag).as_record_dict()
+                del keep
+                without = realtime.compare_records(case["r1"], case["r2"], SettingsCreator(**json.loads(json.dumps(sd))), impl.make_api(engine, threads=1),
+                                                   use_sql_from_cache=False, include_found_by_blocking_rules=flag).as_record_dict()
+                res.append({"call": list(call) + ["address reused" if reused else "address not reused"], "cached": canon_row(with_cache), "uncached": canon_row(without)})
+                continue
             with_cache = realtime.compare_records(case["r1"], case["r2"], objs[kind], apis[engine], use_sql_from_cache=True, include_found_by_blocking_rules=flag).as_record_dict()
             without = realtime.compare_records(case["r1"], case["r2"], objs[kind], impl.make_api(engine, threads=1), use_sql_from_cache=False, include_found_by_blocking_rules=flag).as_record_dict()
             res.append({"call": list(call), "cached": canon_row(with_cache), "uncached": canon_row(without)})
